@@ -38,6 +38,9 @@ marker = st.one_of(
     st.tuples(st.just('toc'), st.just(0), st.just('')),
     st.tuples(st.just('wild'), st.integers(0, 2), st.sampled_from(['root', 'bare'])),
     st.tuples(st.just('long'), st.integers(990, 1100), st.just('')),
+    st.tuples(st.just('stray'), st.integers(990, 1100), st.just('')),          # an opener that is never closed itself, far before the next real marker
+    st.tuples(st.just('file'), st.integers(0, 5), st.just('wild')),             # a case file named through the wildcard extension (cycles through .* markers)
+    st.tuples(st.just('file'), st.integers(0, 5), st.just('wild')),
     st.tuples(st.just('shared'), st.integers(0, 1), st.just('')),
 )
 part = st.one_of(seg.map(lambda s: ['t', s]), marker.map(lambda m: ['m'] + list(m)), marker.map(lambda m: ['m'] + list(m)))
@@ -142,6 +145,8 @@ def materialise(case, root, search):
                     mk = os.path.relpath(os.path.join('/R', tgt), os.path.join('/R', DIRS[f['dir']]))
                 elif style == 'abs':
                     mk = os.path.join(root, tgt)
+                elif style == 'wild':
+                    mk = os.path.relpath(os.path.join(root, tgt), os.path.normpath(eff.get(i, root)))[:-4] + '.*'
                 elif style == 'bare':
                     mk = os.path.basename(tgt)
                 else:
@@ -155,17 +160,21 @@ def materialise(case, root, search):
                 body += '{{wild%d.*}}' % (a % 2) if style == 'root' else '{{sub/wild%d.*}}' % (a % 2)
             elif kind == 'long':
                 body += '{{' + 'x' * a + '}}'
+            elif kind == 'stray':
+                body += '{{ ' + 'y ' * (a // 2) + ' '
             elif kind == 'shared':
                 body += '{{shared%d.txt}}' % a
         body += f['tail']
         files[names[i]] = (meta, ('\n' if meta else '') + body)
+        for e in ('.html', '.tex', '.fodt'):
+            files[names[i][:-4] + e] = files[names[i]]
     for rel, (m, b) in files.items():
         with open(os.path.join(root, rel), 'w', encoding='utf-8') as fh:
             fh.write(m + b)
     return names, files
 
 
-def model_expand(root, files, rel, search_path, source_path, fmt, anc_text, anc_real, visited, top=False):
+def model_expand(root, files, rel, search_path, source_path, fmt, anc_text, anc_real, visited, top=False, skip_cycles=False):
     """Reference expansion written from the documentation.  Raises Cyclic if a file is reached through itself."""
     meta, body = files[rel]
     sf = search_path if search_path.endswith('/') else search_path + '/'
@@ -204,10 +213,13 @@ def model_expand(root, files, rel, search_path, source_path, fmt, anc_text, anc_
         if os.path.isfile(path):
             real = os.path.realpath(path)
             if real in anc_real:
+                if skip_cycles:
+                    scan = start + 2      # documented guard: a file that is being transcluded further up is not transcluded again
+                    continue
                 raise Cyclic()
             crel = os.path.relpath(real, os.path.realpath(root))
             visited.add(real)
-            child = model_expand(root, files, crel, sf, path, fmt, anc_text + [path], anc_real + [real], visited)
+            child = model_expand(root, files, crel, sf, path, fmt, anc_text + [path], anc_real + [real], visited, skip_cycles=skip_cycles)
             out += body[pos:start] + child
             pos = stop + 2
             scan = stop + 2
@@ -273,8 +285,16 @@ def check(case, ctx):
             raise Violation('manifest:family-disagree', '%r vs %r' % (m2, manifest))
         ctx.cls('manifest_checked')
     else:
-        # cyclic: termination and bounded size were just observed
-        pass
+        # cyclic: termination was just observed; the size must stay in proportion to the expansion that respects the recursion guard
+        try:
+            guarded = model_expand(root, files, top_rel, search, top_path, fmt, [], [real_top], set(), top=True, skip_cycles=True)
+            limit = 4 * len(guarded.encode('utf-8', 'surrogateescape')) + 64 * 1024
+            if len(got.encode('utf-8', 'surrogateescape')) > limit:
+                raise Violation('termination:output-out-of-proportion', 'cyclic include graph: output of %d bytes, the guard-respecting expansion has %d bytes\nfiles=%r'
+                                % (len(got), len(guarded), {k: v for k, v in files.items() if k in names}))
+            ctx.cls('cyclic_size_checked')
+        except RecursionError:
+            pass
     ctx.cls('visited_%d' % min(len(visited), 6))
     if len(case['files']) >= 3 and (cyclic or n_base or len(visited) >= 3):
         ctx.nontrivial(repr(sorted(files.items())) + fmt + case['search'])
